@@ -159,12 +159,107 @@ def exact_case(task):
     return None, part
 
 
+class _Stop(Exception):
+    def __init__(self, sampler):
+        self.sampler = sampler
+
+
+def pass_order_task(task):
+    """The order actually handed to an SMC pass by the real particle-Gibbs samplers (whole tree and random subtree with
+    the tree's outliers moved in): the sampler is replayed over every outcome of its random draws up to the start of the
+    conditional SMC pass; given the tree of the pass, the law of the order must be uniform over that tree's compatible
+    orders."""
+    from vlib import kernelx
+    from vlib.harness import Partial, describe_exception
+    from phyclone.smc.samplers.conditional import ConditionalSMCSampler
+    from phyclone.utils.dev import clear_proposal_dist_caches
+
+    part = Partial()
+    cfg = task["cfg"]
+    data = kernelx.config_data(cfg)
+    td = kernelx.make_tree_dist(cfg)
+    forests = [gen.AForest.from_desc(d) for d in task["forests"]]
+    orig_sample = ConditionalSMCSampler.sample
+
+    def stop(self):
+        raise _Stop(self)
+
+    try:
+        ConditionalSMCSampler.sample = stop
+        for f in forests:
+            def once(rng):
+                clear_proposal_dist_caches()
+                tree, _ = gen.build_tree(f, data)
+                move, _k = kernelx.make_move(cfg, rng, td)
+                try:
+                    move(tree)
+                except _Stop as st:
+                    smp = st.sampler
+                    pass_tree = smp.constrained_path[-1].tree
+                    pf, _nodes = gen.tree_to_forest(pass_tree)
+                    return gen.key_str(pf.key()), pf.describe(), tuple(dp.idx for dp in smp.data_points)
+                return None
+
+            law = {}
+            desc = {}
+            try:
+                for res, prob, _r in explore(once):
+                    part.count("paths")
+                    if res is None:
+                        part.count("moves_without_an_smc_pass")
+                        continue
+                    k, d, sigma = res
+                    desc[k] = d
+                    law.setdefault(k, {})
+                    law[k][sigma] = law[k].get(sigma, 0.0) + prob
+            except ChoiceModelError as e:
+                part.inconc("choice model: %s" % e)
+                continue
+            part.count("evaluations")
+            part.see("pass|%s|%s" % (cfg["move"], gen.key_str(f.key())))
+            for k, orders in law.items():
+                pf = gen.AForest.from_desc(desc[k])
+                expected = set(refmodel.compatible_orders(pf))
+                tot = sum(orders.values())
+                part.count("pass_trees_checked")
+                if len(pf.outliers) and pf.K:
+                    part.count("pass_trees_with_clones_and_outliers")
+                bad = set(orders) - expected
+                miss = expected - set(orders)
+                case = {"cfg": cfg, "start_tree": f.describe(), "pass_tree": desc[k]}
+                if bad:
+                    part.violation("order handed to the SMC pass is incompatible with the tree of the pass",
+                                   dict(case, order=sorted(bad)[0]))
+                elif miss:
+                    part.violation("a compatible data order can never be produced for an SMC pass of the %s sampler"
+                                   % cfg["move"], dict(case, missing=sorted(miss)[0], n_expected=len(expected), n_got=len(orders)))
+                else:
+                    u = 1.0 / len(expected)
+                    dev = max(abs(p / tot - u) for p in orders.values())
+                    part.maxi("max_pass_order_uniformity_dev", dev)
+                    if dev > 1e-12 + 1e-9 * u:
+                        worst = max(orders.items(), key=lambda kv: abs(kv[1] / tot - u))
+                        part.violation("compatible data orders of an SMC pass of the %s sampler are not equally likely"
+                                       % cfg["move"], dict(case, order=worst[0], prob=worst[1] / tot, uniform=u))
+    except Exception as e:
+        et, where, msg = describe_exception(e)
+        if where == "outside-repo":
+            import traceback
+            part.inconc("harness error: " + traceback.format_exc()[-800:])
+        else:
+            part.violation("%s in %s while a sampler prepared an SMC pass" % (et, where), {"cfg": cfg, "msg": msg})
+    finally:
+        ConditionalSMCSampler.sample = orig_sample
+    return None, part
+
+
 def run(ctx):
     ctx.rule = ("every forest over n<=4 data points x every outlier subset (quick; n<=5 thorough) with the exact law of "
                 "sample() by exhaustive replay against the brute-force set of compatible orders; random forests up to 7 "
                 "points exhaustively and up to 12 points by membership + independent count; wide forests (257-513 sibling "
                 "chains) by membership, count and symmetric pairs (two points exchanged by a symmetry of the tree must not "
-                "keep one relative order over 60 draws); distinct = canonical tree")
+                "keep one relative order over 60 draws); the order handed to the SMC pass by the real whole-tree and subtree "
+                "samplers (replayed up to the start of the pass) given the tree of the pass; distinct = canonical tree")
     ctx.assumptions = ["brute-force order enumeration and counting recursion cross-check each other",
                        "symmetric-pair monitor: a correct sampler trips it with probability < 1e-12 per run (<=60000 pairs x 2^-59)",
                        "ChoiceRNG.shuffle models a uniform shuffle (distinct arrangements weighted by multiplicity)"]
@@ -216,6 +311,21 @@ def run(ctx):
         tasks.append({"n": nxt + len(outs), "seed": ctx.seed, "exhaustive": False, "brute": False, "draws": 60,
                       "forests": [f.describe()]})
     ctx.map("checks.c09", "exact_case", tasks, timeout=1200)
+    # the orders the real samplers hand to their SMC passes (whole tree / random subtree + the tree's outliers)
+    ptasks = []
+    for move in ("pg", "subtree"):
+        for wiring in ("library", "run"):
+            for n in (3, 4):
+                fs = [f for f in gen.all_forests(n, outliers=True) if f.K >= 1]
+                pick = rng.permutation(len(fs))[: (24 if n == 3 else 16) if ctx.tier == "quick" else (len(fs) if n == 3 else 200)]
+                cfg = {"data_seed": ctx.seed, "n": n, "D": 1, "G": 3, "alpha": 1.0, "move": move, "wiring": wiring,
+                       "outlier_prior": 0.2, "proposal": "semi-adapted", "N": 2, "kind": "flat"}
+                sel = [fs[int(i)].describe() for i in pick]
+                for i in range(0, len(sel), 8):
+                    ptasks.append({"cfg": cfg, "forests": sel[i:i + 8]})
+    ctx.map("checks.c09", "pass_order_task", ptasks, timeout=1200)
+    if ctx.counters.get("pass_trees_with_clones_and_outliers", 0) < 20:
+        ctx.inconc("too few SMC passes over trees with clones and outliers observed")
     ctx.exhaustive = False
     if ctx.counters.get("wide_forests", 0) < 4:
         ctx.inconc("wide forests not evaluated")
